@@ -60,7 +60,8 @@ var dkgSentinels = []struct {
 	{dkg.ErrInvalidScheme, "ErrInvalidScheme"}, {dkg.ErrGenesisTimeNotEqual, "ErrGenesisTimeNotEqual"},
 	{dkg.ErrNoGenesisSeedForFirstEpoch, "ErrNoGenesisSeedForFirstEpoch"},
 	{dkg.ErrGenesisTimeNotConsistentWithProposal, "ErrGenesisTimeNotConsistentWithProposal"},
-	{dkg.ErrGenesisSeedCannotChange, "ErrGenesisSeedCannotChange"}, {dkg.ErrSelfMissingFromProposal, "ErrSelfMissingFromProposal"},
+	{dkg.ErrGenesisSeedCannotChange, "ErrGenesisSeedCannotChange"}, {dkg.ErrSchemeCannotChange, "ErrSchemeCannotChange"},
+	{dkg.ErrBeaconPeriodCannotChange, "ErrBeaconPeriodCannotChange"}, {dkg.ErrSelfMissingFromProposal, "ErrSelfMissingFromProposal"},
 	{dkg.ErrCannotJoinIfNotInJoining, "ErrCannotJoinIfNotInJoining"},
 	{dkg.ErrJoiningAfterFirstEpochNeedsGroupFile, "ErrJoiningAfterFirstEpochNeedsGroupFile"},
 	{dkg.ErrInvalidEpoch, "ErrInvalidEpoch"}, {dkg.ErrLeaderCantJoinAfterFirstEpoch, "ErrLeaderCantJoinAfterFirstEpoch"},
